@@ -18,9 +18,19 @@ def cfg_info(cfgname):
     ops = re.search(r'Ops <- (\w+)', t).group(1)
     return OPS[ops], dict(recvUnblocks=('RecvUnblocks = TRUE' in t), callback=('HasCallback = TRUE' in t))
 
+def projection(st):
+    """The part of a ClientImpl state that Client.VerifSnapshot shows: next id, ids awaiting a reply, stopped."""
+    if not st or 'slot' not in st: return None
+    sl = st['slot']
+    items = sl.items() if isinstance(sl, dict) else [(i + 1, v) for i, v in enumerate(sl)]      # a function on 1..n prints as a sequence
+    return dict(nextid=int(st['nextID']), pending=sorted(str(k) for k, v in items if v['st'] == 'pending'), stopped=(st['ch'] != 'open'))
+
 def convert(beh, rng, name, ops, opts, steer=True):
     steps = []
-    for act, a in beh:
+    for item in beh:
+        act, a = item[0], item[1]
+        state = item[2] if len(item) > 2 else None
+        nsteps = len(steps)
         if act == 'Init': continue
         if act == 'StartOp':
             kind, specs = ops[a[0]]
@@ -48,6 +58,9 @@ def convert(beh, rng, name, ops, opts, steer=True):
         elif act == 'CbReturn': steps.append(dict(a='cbret', id=str(a[0]), out=rng.choice(CB_OUTS)))
         elif act == 'CbReply': steps.append(dict(a='gate', site='cli.cbreply.lock', id=str(a[0])))
         else: raise C.ToolError('unknown ClientImpl action %s' % act)
+        if steer and len(steps) == nsteps + 1 and act not in ('CloseReturn',):
+            pj = projection(state)
+            if pj is not None: steps[-1]['proj'] = pj
     if not steer:
         ext = []
         for s in steps:
@@ -132,7 +145,7 @@ def gen_scenarios(prop, tier, seed, nsim):
     scs = []
     for ci, cfg in enumerate(simcfgs):
         ops, opts = cfg_info(cfg)
-        behs = C.simulate(cfg, 'MCClient', nsim // len(simcfgs) + 1, depth, seed * 31 + ci)
+        behs = C.simulate_states(cfg, 'MCClient', nsim // len(simcfgs) + 1, depth, seed * 31 + ci)
         for bi, beh in enumerate(behs):
             steer = (bi % 4 != 3)
             scs.append(convert(beh, rng, '%s-%s-%d%s' % (prop, cfg, bi, '' if steer else '-r'), ops, dict(opts), steer=steer))
@@ -175,6 +188,7 @@ def run_check(prop, tier, seed, replay=None):
                    rule='scenarios = ClientImpl behaviours from tlc -simulate replayed under gate control against a scripted raw peer + directed histories; '
                         'distinct = distinct sequences of observable event kinds (with operation outcomes)',
                    racy_schedules=sum(t[0].get('st_racy', 0) > 0 for t in traces), steering_divergences=sum(t[0].get('st_diverged', 0) for t in traces),
+                   state_projections_compared=sum(t[0].get('st_projok', 0) for t in traces), conformance_drift=sum(t[0].get('st_drift', 0) for t in traces),
                    crashes=len(info['crashes']),
                    samples=[dict(scenario=scs[0]['name'], steps=scs[0]['steps'][:12], events=[e['ev'] for e in traces[0]][:40])], exhaustive=False)
         C.write_evidence(prop, tier, seed, 'model_checking', cov, time.time() - t0, len(violations),
